@@ -164,6 +164,22 @@ func clique(ls []int) [][]int {
 func genCase(front string) func(t *rapid.T) Case {
 	return func(t *rapid.T) Case {
 		c := Case{Front: front, N: gen.Uniform(t, 3, 9, "n")}
+		if gen.Chance(t, 1, 3, "rich") {
+			// the shared clique-rich generator, with its big-group family, over up to 12 variables
+			c.N = gen.Uniform(t, 6, 12, "n2")
+			c.Clauses, c.Shapes = gen.CliqueRich(t, c.N)
+			if gen.Chance(t, 1, 3, "cost") {
+				cf := gen.CostFunc(t, c.N, false)
+				if cf.W == nil {
+					cf.W = make([]int, len(cf.Lits))
+					for i := range cf.W {
+						cf.W[i] = 1
+					}
+				}
+				c.Cost = &cf
+			}
+			return c
+		}
 		blocks := rapid.IntRange(1, 4).Draw(t, "blocks")
 		for b := 0; b < blocks; b++ {
 			switch rapid.IntRange(0, 6).Draw(t, "block") {
@@ -239,7 +255,7 @@ func min(a, b int) int {
 }
 
 func init() {
-	tail := ": 1..4 building blocks (complete cliques of 2..5 literals of one or mixed polarity, clique minus one edge, two overlapping cliques, repeated binary clause, loose binary clauses, longer clauses, sometimes a unit clause), clause order shuffled, optional cost function; oracle = truth table of the clauses as written; the parsed problem is evaluated (without solving) from its exported data before and after DetectAtMostOne: same variables, same model set; then Solve / CountModels / Optimal after detection equal the truth; non-trivial = detection changed the problem"
+	tail := ": 1..4 building blocks (complete cliques of 2..5 literals of one or mixed polarity, clique minus one edge, two overlapping cliques, repeated binary clause, loose binary clauses, longer clauses, sometimes a unit clause; in a third of the cases the shared clique-rich generator over 6..12 variables, whose extra family is an at-most-one group of 5..7 variables with clauses over most of the group and clauses linking it to other variables), clause order shuffled, optional cost function; oracle = truth table of the clauses as written; the parsed problem is evaluated (without solving) from its exported data before and after DetectAtMostOne: same variables, same model set; then Solve / CountModels / Optimal after detection equal the truth; non-trivial = detection changed the problem"
 	vf.Register(
 		vf.Sub[Case]{Name: "cnf", Quick: 15000, Thorough: 200000, Gen: genCase("cnf"), Check: check, Floor: 0.25, Rule: "CNF n in 3..9 via ParseSliceNb" + tail},
 		vf.Sub[Case]{Name: "pb", Quick: 8000, Thorough: 100000, Gen: genCase("pb"), Check: check, Floor: 0.2, Rule: "the same clauses given as PropClause constraints plus 0..2 PB constraints via ParsePBConstrs" + tail},
